@@ -79,8 +79,16 @@ func TestVerif_C20_bytes(t *testing.T) {
 	for _, v := range []string{"a\r\nX-Injected: 1", "a\r\n\r\nGET /x HTTP/1.1\r\nX-Injected: 1\r\n\r\n", "a\nX-Injected: 1", "a\rX-Injected: 1", "\x00\x00", "tok \t ", " \t tok", " ", "\t", "", "a\r\n b"} {
 		all = append(all, cs{true, v, "pwd", "user:multi"}, cs{true, "usr", v, "pass:multi"}, cs{false, "", v, "token:multi"})
 	}
+	// scheme-like credentials, each at the request level and at the client level (the level is
+	// the parity of the index)
+	if len(all)%2 == 1 {
+		all = append(all, cs{false, "", "tok", "token:multi"})
+	}
+	for _, v := range c20SchemeLike {
+		all = append(all, cs{false, "", v, "token:scheme-like"}, cs{false, "", v, "token:scheme-like"}, cs{true, "usr", v, "pass:scheme-like"}, cs{true, v, "pwd", "user:scheme-like"})
+	}
 	interesting := func(c cs) bool {
-		if verifh.Thorough() || strings.HasSuffix(c.tag, ":multi") {
+		if verifh.Thorough() || strings.HasSuffix(c.tag, ":multi") || strings.HasSuffix(c.tag, ":scheme-like") {
 			return true
 		}
 		v := c.pass
